@@ -166,8 +166,11 @@ def allFresh (used : List Path) : List Path → Bool
   | [] => true
   | p :: ps => !used.contains p && allFresh (p :: used) ps
 
-def droppedOf (cs : List Ckpt) (ids : List Nat) : List Ckpt := cs.filter fun c => !ids.contains c.id
-def keptOf (cs : List Ckpt) (ids : List Nat) : List Ckpt := cs.filter fun c => ids.contains c.id
+/-- `CheckpointList.RetainOnly`: a checkpoint stays if its id is listed, or if it is newer than every listed id (it
+belongs to a job checkpoint that is still being completed) -/
+def keeps (ids : List Nat) (c : Ckpt) : Bool := ids.contains c.id || ids.foldl max 0 < c.id
+def droppedOf (cs : List Ckpt) (ids : List Nat) : List Ckpt := cs.filter fun c => !keeps ids c
+def keptOf (cs : List Ckpt) (ids : List Nat) : List Ckpt := cs.filter fun c => keeps ids c
 def walsOf (cs : List Ckpt) : List Path := cs.flatMap (·.wals)
 
 def writerAlive (s : State) (w : Nat) : Bool :=
